@@ -120,17 +120,11 @@ def sync_tree(src, dst, transform):
                 os.remove(os.path.join(root, fn))
 
 def flip_fixslice(rel, text):
-    if rel != "soft.rs":
-        return text
-    a = '#[cfg_attr(not(target_pointer_width = "64"), path = "soft/fixslice32.rs")]'
-    b = '#[cfg_attr(target_pointer_width = "64", path = "soft/fixslice64.rs")]'
-    if a not in text or b not in text:
-        sys.stderr.write("HARNESS-ERROR: aes/src/soft.rs no longer has the expected "
-                         "fixslice path predicates; cannot build the alternate-width shadow\n")
-        sys.exit(2)
-    text = text.replace(a, '#[cfg_attr(target_pointer_width = "64", path = "soft/fixslice32.rs")]')
-    text = text.replace(b, '#[cfg_attr(not(target_pointer_width = "64"), path = "soft/fixslice64.rs")]')
-    return text
+    """The alternate-width AES shadows: every `target_pointer_width = "64"` predicate of the crate reads "32" and
+    vice versa, so that a 64-bit host compiles what a 32-bit target would select (fixslice32 and whatever else the
+    crate keys on the pointer width) and the 32-bit interpreter target compiles the 64-bit selection. If the crate
+    stops keying anything on the pointer width the shadow is simply a second copy of the forced-soft build."""
+    return re.sub(r'target_pointer_width\s*=\s*"(64|32)"', lambda m: 'target_pointer_width = "%s"' % ("32" if m.group(1) == "64" else "64"), text)
 
 NEON_NAMES = "vaeseq_u8, vaesdq_u8, vaesmcq_u8, vaesimcq_u8, vqtbl4q_u8"
 
